@@ -1723,6 +1723,40 @@ func c07e(c *Ctx) {
 						}
 					}
 				}
+				// the widths add up: in the two summing loops (the codes of a word, the characters of
+				// a word) what goes round is the sum so far plus the width just looked up
+				for _, sf := range []*ssa.Function{pcc, fn} {
+					if sf == nil {
+						continue
+					}
+					for _, b := range sf.Blocks {
+						if !isLoopHeader(b) {
+							continue
+						}
+						for _, in := range b.Instrs {
+							ph, isPhi := in.(*ssa.Phi)
+							if !isPhi {
+								continue
+							}
+							if bt, isB := ph.Type().Underlying().(*types.Basic); !isB || bt.Kind() != types.Int || strings.Contains(ph.Comment, "rangeindex") {
+								continue
+							}
+							for i, e := range ph.Edges {
+								if !b.Dominates(b.Preds[i]) {
+									continue
+								}
+								okSum := false
+								if bo, isBo := e.(*ssa.BinOp); isBo && bo.Op == token.ADD && (bo.X == ssa.Value(ph) || bo.Y == ssa.Value(ph)) {
+									okSum = true
+								}
+								if e == ssa.Value(ph) {
+									okSum = true
+								}
+								c.Check(okSum, fmt.Sprintf("width-chain/widths-add-up/%s/%s#%d", sf.Name(), flagName(c.term(sf, ph)), i), c.W.Pos(ph.Pos()), "the loop carries the sum so far plus the width just found", sf.Name()+" carries "+pretty(c.term(sf, e))+" round its loop instead of adding to the width so far: only the last code or character of a word would count")
+							}
+						}
+					}
+				}
 				c.Check(okPcc, "width-chain/control-codes-found-and-removed", c.W.FuncPos(pcc), "every control code of the word is measured once and removed from the text that is measured by characters", whyPcc)
 			}
 		}
